@@ -5,7 +5,7 @@ from hc_oracles import server_deadline_oracle, timeout_oracle, ep_crash_oracle, 
 
 PROP = "C10"
 COQ_FILE = "props/C10.v"
-THEOREMS = ['C10_client_timer_semantics', 'C10_rx_refreshes_deadline', 'C10_deadline_counts_from_connect', 'C10_handshake_budget_constants', 'C10_client_handshake_timeout_history', 'C10_client_active_timeout_history', 'C10_client_active_deadline_exact', 'C10_client_closing_timeout_history', 'C10_client_no_other_timeout', 'C10_server_timer_budget', 'C10_server_give_up_after_budget', 'C10_server_no_give_up_with_resends_left', 'C10_server_active_deadline_history', 'C10_server_last_heard', 'C10_server_active_timeout_rule', 'C10_server_active_listed_history', 'C10_server_step_pass', 'C10_server_step_active_timeout']
+THEOREMS = ['C10_client_timer_semantics', 'C10_rx_refreshes_deadline', 'C10_deadline_counts_from_connect', 'C10_handshake_budget_constants', 'C10_client_handshake_timeout_history', 'C10_client_active_timeout_history', 'C10_client_active_deadline_exact', 'C10_client_closing_timeout_history', 'C10_client_no_other_timeout', 'C10_server_timer_budget', 'C10_server_give_up_after_budget', 'C10_server_no_give_up_with_resends_left', 'C10_server_active_deadline_history', 'C10_server_last_heard', 'C10_server_active_timeout_rule', 'C10_server_active_listed_history', 'C10_server_step_pass', 'C10_server_step_active_timeout', 'C10_keepalive_due', 'C10_sync_arms_reply', 'C10_reply_emits_ack']
 USES_FLOATS = True
 NEEDS_RELEASE = False
 ASSUMPTIONS = ['proved for the Client model over whole histories (TimeoutHistory.v): handshake Error(Timeout) no earlier than 22 s after connect() and after ten resends; active Error(Timeout) only if every step with a data/sync/ack frame (and the Connect step) lies at least active_timeout back, deadline exactly active_timeout after a step with a frame from the server, silent step at/past it reports; disconnect Error(Timeout) no earlier than 22 s after the first Disconnect request; no timeout in other phases; plus exact per-step timer semantics. Server, over whole histories (ServerTimeouts.v): every SYN+ACK / Disconnect resend timer of a pending / closing entry keeps the remaining part of the 22 s budget ahead of it, counted from the step that accepted the request / began the disconnect, so the timer loop gives up (forgets the entry, reports Error(Timeout)) no earlier than 22 s after the attempt began and never while resends are left. Keepalive sufficiency (two endpoints and a network) is decided by the timers/lifecycle streams (virtual clock) with the timeout oracles and the correspondence (partial)', 'proved for the Server model over whole histories (ServerActive.v): the deadline of every established entry equals (server clock of the last step whose input held a handshake-ACK, data, sync or ack frame from its address, a quantity fixed by the datagrams alone) + active_timeout_ms, and the timeout pass forgets a listed established entry and reports Error(Timeout) exactly when that deadline is reached and changes no other entry; every established entry is in the list that pass walks, at the pass of every step of every history (C10_server_active_listed_history, C10_server_step_pass)']
